@@ -130,11 +130,11 @@ Definition version_from_string (s : str) : option N :=
     end
   end.
 
-(* Version.Round() (used when only the head table carries a version):
-   math.Round(float64(v)/65536*1000)/1000, then math.Round(x*65536) —
-   rounding half away from zero on the exact values *)
+(* Version.Round(): math.RoundToEven(float64(v)/65536*1000)/1000, then
+   math.Round(x*65536) — the thousandths the string representation shows
+   (v/65536*1000 is exact in binary64), converted back *)
 Definition ver_round (v : N) : N :=
-  let k := (v * 1000 * 2 + 65536) / (2 * 65536) in
+  let k := ver_to_milli v in
   ((k * 131072 + 1000) / 2000) mod 4294967296.
 
 (* ---- os2.Weight / os2.Width names ---- *)
